@@ -148,8 +148,35 @@ func tErr(how string, ctx context.Context) error {
 		return fmt.Errorf("verif wrap: %w", context.Canceled)
 	case "", "own":
 		return ctx.Err()
+	// errors of a DERIVED sub-context the service cancelled (or let expire) itself while its own context is live:
+	// their innermost cause is context.Canceled / context.DeadlineExceeded, yet the supervisor did not cancel anything
+	case "subctx", "wsubctx", "wwsubctx":
+		sub, c := context.WithCancel(ctx)
+		c()
+		switch how {
+		case "subctx":
+			return sub.Err()
+		case "wsubctx":
+			return fmt.Errorf("verif: upstream call: %w", sub.Err())
+		}
+		return fmt.Errorf("verif: request failed: %w", fmt.Errorf("dial: %w", sub.Err()))
+	case "subdl", "wsubdl":
+		sub, c := context.WithDeadline(ctx, time.Now().Add(-time.Second))
+		defer c()
+		<-sub.Done()
+		if how == "subdl" {
+			return sub.Err()
+		}
+		return fmt.Errorf("verif: upstream call: %w", sub.Err())
 	}
 	panic("bad how " + how)
+}
+
+func tLive(ctx context.Context) int {
+	if ctx.Err() == nil {
+		return 1
+	}
+	return 0
 }
 
 func (r *tRun) service(ctx context.Context) (ret error) {
@@ -168,7 +195,7 @@ func (r *tRun) service(ctx context.Context) (ret error) {
 		if e := recover(); e != nil {
 			r.mu.Lock()
 			in.exited = true
-			r.logLocked("exit", in, "how=other panic=1")
+			r.logLocked("exit", in, fmt.Sprintf("how=other panic=1 live=%d", tLive(ctx)))
 			r.mu.Unlock()
 			panic(e)
 		}
@@ -177,7 +204,8 @@ func (r *tRun) service(ctx context.Context) (ret error) {
 		r.mu.Lock()
 		in.exited = true
 		in.exitNil = err == nil
-		r.logLocked("exit", in, "how="+vKind(err)+" panic=0")
+		// live=1: the service's own context was not cancelled when it left (sampled under the log mutex)
+		r.logLocked("exit", in, fmt.Sprintf("how=%s panic=0 live=%d", vKind(err), tLive(ctx)))
 		r.mu.Unlock()
 		return err
 	}
@@ -533,6 +561,42 @@ func fixedScenarios() []*tScenario {
 			"root.a": {{healthy: true, fail: "wctx", after: 2 * ms}, stableLeaf()},
 			"root.b": {stableLeaf()},
 		}},
+		// A member of a group of >= 2 fails, its OWN context live, with an error whose innermost cause is the
+		// Canceled / DeadlineExceeded of a sub-context it derived and cancelled itself: that is a failure like any other
+		// (group cancelled, restart after back-off), not a cancellation.  The siblings then stop for a GENUINE
+		// cancellation and answer with the context error (plain or wrapped): those are restarted without back-off.
+		{name: "subctx-canceled-in-group", scripts: map[string][]tScript{
+			"root":     {{groups: [][]string{{"a", "b", "c"}, {"d"}}, healthy: true}},
+			"root.a":   {{healthy: true, fail: "subctx", after: 3 * ms}, stableLeaf()},
+			"root.b":   {{healthy: true, linger: 3 * ms, ctxHow: "wctx"}},
+			"root.c":   {{groups: [][]string{{"x"}}, healthy: true}},
+			"root.c.x": {stableLeaf()},
+			"root.d":   {stableLeaf()},
+		}},
+		{name: "wrapped-subctx-canceled-in-group", scripts: map[string][]tScript{
+			"root":   {{groups: [][]string{{"a", "b"}}, healthy: true}},
+			"root.a": {{healthy: true, fail: "wsubctx", after: 2 * ms}, stableLeaf()},
+			"root.b": {{healthy: true, ctxHow: "own"}},
+		}},
+		{name: "double-wrapped-subctx-canceled-in-group", scripts: map[string][]tScript{
+			"root":     {{groups: [][]string{{"p"}}, healthy: true}},
+			"root.p":   {{groups: [][]string{{"a", "b"}, {"c"}}, healthy: true}},
+			"root.p.a": {{healthy: true}},
+			"root.p.b": {{fail: "wwsubctx", after: 2 * ms}, {healthy: true, fail: "subctx", after: 2 * ms}, stableLeaf()},
+			"root.p.c": {stableLeaf()},
+		}},
+		{name: "subctx-deadline-in-group", scripts: map[string][]tScript{
+			"root":   {{groups: [][]string{{"a", "b"}}, healthy: true}},
+			"root.a": {{healthy: true, fail: "subdl", after: 2 * ms}, {healthy: true, fail: "wsubdl", after: 2 * ms}, stableLeaf()},
+			"root.b": {{healthy: true, ctxHow: "wctx"}},
+		}},
+		{name: "genuine-cancel-then-subctx-failure", scripts: map[string][]tScript{
+			// first a fails plainly and b is genuinely cancelled (restarted at once); then b's second incarnation fails
+			// with a wrapped sub-context error under a live context and a is the one genuinely cancelled
+			"root":   {{groups: [][]string{{"a", "b"}}, healthy: true}},
+			"root.a": {{healthy: true, fail: "other", after: 2 * ms}, {healthy: true, ctxHow: "own"}, stableLeaf()},
+			"root.b": {{healthy: true, ctxHow: "wctx"}, {healthy: true, fail: "wsubctx", waitFor: "", after: 40 * ms}, stableLeaf()},
+		}},
 		{name: "depth3-middle-fails", scripts: map[string][]tScript{
 			"root":       {{groups: [][]string{{"m"}, {"s"}}, healthy: true}},
 			"root.m":     {{groups: [][]string{{"x", "y"}}, healthy: true, fail: "other", after: 5 * ms}, {groups: [][]string{{"x", "y"}}, healthy: true}},
@@ -566,7 +630,7 @@ func fixedScenarios() []*tScenario {
 func randScenario(r *rand.Rand, idx int) *tScenario {
 	ms := time.Millisecond
 	sc := &tScenario{name: fmt.Sprintf("rand%d", idx), scripts: map[string][]tScript{}}
-	fails := []string{"other", "other", "nil", "panic", "wctx", "ctx"}
+	fails := []string{"other", "other", "nil", "panic", "wctx", "ctx", "subctx", "wsubctx", "wwsubctx", "subdl", "wsubdl"}
 	ctxHows := []string{"own", "own", "own", "wctx", "nil", "other"}
 	budget := 7
 	var build func(dn string, depth int) [][]string
